@@ -53,6 +53,9 @@ def gen_world(seed, wi):
     ga.update(lfusion=False, rfusion=False)
     if wi % 2 == 0:
         ga.update(pseudo=True, deletion=True)
+    if wi % 4 == 0:
+        # copy number judged on two of nine regions (the low-depth guards must cope with that)
+        ga.update(cn_subset="two", n_exons=4)
     gb = WL.gene_opts(rng, small=True)
     ro = WL.read_opts(rng)
     world = W.gen_world(rng, 2, [ga, gb], ro, margin=max(200, ro["L"] + 60))
